@@ -125,6 +125,29 @@ def generate(rng, tier, seed):
                 elif r.value != want:
                     c.fail(f"{label} of a {n}-byte message (padding {padding}) = {r.value.hex()}, ISO 9797-1 gives {want.hex()}")
             yield c
+    # memory pressure: a child process whose address space is capped a little above its size MACs a 48 MiB block-aligned message; it
+    # may run out of memory (MemoryError is not a MAC), but whatever MAC it does return is the MAC
+    import subprocess as _sp
+    import sys as _sys
+    import os as _os2
+    seedb = rb(rng, 32)
+    size = 48 << 20
+    data_ = (seedb * (size // 32 + 1))[:size]
+    want = {"cbc-des": ref_mac.mac1("des", seedb[:16], data_, 3), "cbc-aes": ref_mac.mac1("aes", seedb[:16], data_, 3), "cbc-des-1": ref_mac.mac1("des", seedb[:16], data_, 1),
+            "cbc-des-2": ref_mac.mac1("des", seedb[:16], data_, 2), "retail": ref_mac.mac3(seedb[:16], seedb[16:32], data_, 3)}
+    del data_
+    for headroom in (24 << 20, 80 << 20):
+        c = Case("memory-pressure", {"message": size, "headroom": headroom})
+        c.key = ("mem", headroom)
+        here_ = _os2.path.dirname(_os2.path.dirname(_os2.path.abspath(__file__)))
+        p_ = _sp.run([_sys.executable, _os2.path.join(here_, "memchild.py"), str(size), seedb.hex(), str(headroom)], capture_output=True, text=True, timeout=300,
+                     env=dict(_os2.environ, PSEC_REPO=_os2.path.abspath(core.REPO)))
+        for line in p_.stdout.splitlines():
+            name, _, val = line.partition(" ")
+            if name in want and all(ch in "0123456789abcdef" for ch in val) and val != want[name].hex():
+                c.fail(f"under memory pressure ({headroom >> 20} MiB of headroom) {name} of a {size >> 20} MiB message returned {val}, ISO 9797-1 gives {want[name].hex()}")
+        c.desc["child"] = p_.stdout.split()[:10]
+        yield c
     # message content that looks padded already: block-aligned messages ending in 80, 80 00, 80 00 .. 00, all-zero messages, messages
     # ending in 00 - under every padding method the MAC is over the message padded once more as the method says
     for algname, alg, bs, ks in (("des", A.DES, 8, 16), ("aes", A.AES, 16, 32), ("des", A.DES, 8, 8)):
